@@ -55,9 +55,9 @@ LEVEL_NOTE = ('Trusted: Coq kernel, the hand-written model Creator.v, the schedu
               'lock of one lock file is exclusive (C07).  Modelled, not verified: the file system (exists / atomic rename), '
               'PIL encode/decode/crop (content = one colour per tile), thread safety of PIL.  Expiry is inside the statement '
               '(expire timestamp before the start of the run, expired files at the start; is_cached = exists + mtime look); '
-              'outside: tiles removed during the run, an expire timestamp that moves past files written during the run, '
+              'bulk meta tiles of tiled sources are inside too (one upstream request per tile); outside: tiles removed during the run, an expire timestamp that moves past files written during the run, '
               'uncacheable or blank upstream answers, upstream errors, '
-              'minimize_meta_requests, bulk_meta_tiles, concurrent_tile_creators > 1 inside one request (each pool worker '
+              'minimize_meta_requests, concurrent_tile_creators > 1 inside one request (each pool worker '
               'behaves like one more requester), rescale_tiles, dimensions, sqlite/mbtiles back ends, lock timeouts.')
 DESIGN_REF = 'DESIGN.md section 5, C08'
 RULE = ('case = one configuration (grid, meta size, initial cache, 2-6 request lists) run under one schedule to completion; '
@@ -154,7 +154,7 @@ class World(object):
         self.lock_timeout = conf.get('lock_timeout', 1000)
         self.vclock = 'lock_timeout' in conf       # virtual clock for mapproxy.util.lock
         self.clock = time.time()
-        self.lenient = self.kind != 'file' or self.bulk or self.vclock
+        self.lenient = self.kind != 'file' or self.vclock
         self.substeps = self.kind == 'file-link'
         self.uniform = self.kind == 'file-link'
         self.procs = bool(conf.get('procs'))
@@ -779,6 +779,7 @@ def gen_conf(rng):
     if rng.random() < 0.3:
         g['dims'] = {'time': rng.choice(['a', '2020', 't_1'])}
     g['procs'] = rng.random() < 0.3
+    g['bulk'] = rng.random() < 0.12
     return g
 
 
@@ -1046,10 +1047,10 @@ def resp_lit(res):
 
 
 DEFS = "Definition up_enc (t : coord) : Z := let '(x, y, z) := t in x + 256 * y + 65536 * z.\n"
-CASE_TYPE = ('gconf * bool * bool * list (coord * Z) * list (coord * Z) * list (list coord) * list (nat * obs) * '
+CASE_TYPE = ('gconf * bool * bool * bool * list (coord * Z) * list (coord * Z) * list (list coord) * list (nat * obs) * '
              'list (list (coord * option Z)) * list (coord * Z) * list coord')
-CHECKER = ("fun c => let '(g, reload, expire, oldl, c0, reqs, tr, resps, final, ups) := c in "
-           "trace_ok_x (grid_sys_x g true reload up_enc expire (lookup oldl)) c0 oldl reqs tr resps final ups")
+CHECKER = ("fun c => let '(g, reload, expire, bulk, oldl, c0, reqs, tr, resps, final, ups) := c in "
+           "trace_ok_x (grid_sys_b g true reload up_enc expire (lookup oldl) bulk) c0 oldl reqs tr resps final ups")
 
 
 def compact_trace(trace):
@@ -1256,8 +1257,8 @@ def run_threads(ctx, reload_flag):
             if hang or s.weird:
                 obs.append(IMPOSSIBLE)
             ups = [c['main'] for c in world.source.calls]
-            terms.append('(%s, %s, %s, %s, %s, %s, [%s], %s, %s, %s)' % (
-                gconf_lit(world), blit(reload_flag), blit(world.expire),
+            terms.append('(%s, %s, %s, %s, %s, %s, %s, [%s], %s, %s, %s)' % (
+                gconf_lit(world), blit(reload_flag), blit(world.expire), blit(world.bulk),
                 llit(world.stale, lambda c: '(%s, %s)' % (clit(c), zlit(enc_stale(c)))),
                 llit(initial, lambda c: '(%s, %s)' % (clit(c), zlit(enc(c)))),
                 llit(reqs, lambda r: llit(r, clit)),
